@@ -39,12 +39,18 @@ func init() {
 }
 
 const c14Schema = `enum Color { RED GREEN BLUE }
+enum Unit { kB MB metre }
 scalar Any
 input Point { x: Int! y: Int = 0 tags: [String!] child: Point nested: [[Point!]] c: Color = RED any: Any req: [Int!]! = [1] }
 input One @oneOf { a: Int b: String }
-type Query { f(any: Any): Int }`
+type Query { f(any: Any): Int g(p: Point, o: One, i: Int! = 1, l: [Int!]! = [1]): Int }`
 
-var c14Bases = []string{"Int", "Float", "String", "Boolean", "ID", "Color", "Point", "One", "Any"}
+// c14Primer is validated against every schema object before variables are coerced with it: it puts nullable variables with
+// defaults at non-null positions that have defaults of their own (the one place where a rule relaxes a type), so a rule that
+// relaxed the SCHEMA's type instead of its own copy would show in what coercion accepts afterwards.
+const c14Primer = `query P($n: Int = 1, $m: Int = 2, $k: Int = 3, $s: [String!] = ["t"]) { g(p: {x: $n, req: [$k], tags: $s}, i: $m, l: [$k]) }`
+
+var c14Bases = []string{"Int", "Float", "String", "Boolean", "ID", "Color", "Unit", "Point", "One", "Any"}
 
 // c14Types enumerates base types under every non-null pattern of list depth 0..3.
 func c14Types() []string {
@@ -421,7 +427,7 @@ func c14Run(x *core.Ctx) {
 			t := mustType(ts)
 			// every fifth call omits the variable, cycling through: no default, a default, a null default
 			supplied := i%5 != 4
-			defaultable := !strings.Contains(ts, "One") && !strings.Contains(ts, "Any")
+			defaultable := !strings.Contains(ts, "One")
 			withDefault := defaultable && ((supplied && i%6 == 0) || (!supplied && (i/5)%3 != 0))
 			c := core.NewCase("vars", "type", ts)
 			if withDefault {
@@ -571,7 +577,7 @@ func valueClass(v interface{}, depth int) string {
 	return fmt.Sprintf("%T", v)
 }
 
-var c14DefaultFor = map[string]string{"Int": "7", "Float": "1.5", "String": `"d"`, "Boolean": "true", "ID": `"i"`, "Color": "GREEN", "Point": "{x: 1}"}
+var c14DefaultFor = map[string]string{"Int": "7", "Float": "1.5", "String": `"d"`, "Boolean": "true", "ID": `"i"`, "Color": "GREEN", "Unit": "metre", "Point": "{x: 1}", "Any": `{a: 1, l: [2, {b: "x"}]}`}
 
 // c14Alias: ONE Go map supplied for two variables of different input types (clients build such maps; nothing says values are
 // trees). It is valid for the first declared variable and invalid for the second, so coercion must fail - and it must give the
@@ -626,6 +632,12 @@ func c14Check(x *core.Ctx, c *core.Case) {
 	schema, err := gqlparser.LoadSchema(&ast.Source{Name: "c14.graphql", Input: c14Schema})
 	if err != nil {
 		x.HarnessBug("c14 schema: " + err.Error())
+		return
+	}
+	// the conformance predicate reads the types from a schema object nothing else ever touches
+	pristine, _ := gqlparser.LoadSchema(&ast.Source{Name: "c14.graphql", Input: c14Schema})
+	if pd, perr := parser.ParseQuery(&ast.Source{Name: "primer.graphql", Input: c14Primer}); perr != nil || len(validator.Validate(schema, pd)) > 0 {
+		x.HarnessBug("c14 primer is not a valid operation")
 		return
 	}
 	if c.Kind == "alias" {
@@ -689,7 +701,7 @@ func c14Check(x *core.Ctx, c *core.Case) {
 	// reference verdict on the supplied value BEFORE the call (the library may edit maps in place)
 	refOK, refWhy := true, ""
 	if isSupplied {
-		refOK, refWhy = conforms(schema, vd.Type, supplied, "$v")
+		refOK, refWhy = conforms(pristine, c14PristineType(vd.Type), supplied, "$v")
 		if c.Get("coerced") != "" {
 			// a single value stands for a list: the predicate is applied to the output only
 			refOK, refWhy = true, ""
@@ -740,8 +752,23 @@ func c14Check(x *core.Ctx, c *core.Case) {
 			}
 			return
 		}
-		if ok, why := conforms(schema, vd.Type, got, "$v"); !ok {
+		if ok, why := conforms(pristine, c14PristineType(vd.Type), got, "$v"); !ok {
 			x.Violate("nonconforming-output(default:"+wrapPattern(ts)+")", why, "a value of "+ts)
+		}
+		if want, known := map[string]string{"Int": "7", "Float": "1.5", "String": "d", "Boolean": "true", "ID": "i", "Color": "GREEN", "Unit": "metre", "Any": "map[a:1 l:[2 map[b:x]]]"}[strings.Trim(ts, "[]!")]; known && c.Get("default") == "1" {
+			// the default written in the operation is the value: the same text at the declared list depth
+			inner := got
+			for {
+				l, ok := inner.([]interface{})
+				if !ok || len(l) != 1 {
+					break
+				}
+				inner = l[0]
+			}
+			x.Count("default_values_compared")
+			if fmt.Sprint(inner) != want {
+				x.Violate("default-not-applied(value:"+strings.Trim(ts, "[]!")+")", fmt.Sprintf("%#v", got), "the declared default "+want)
+			}
 		}
 		if c.Get("default") == "keyword-text" {
 			x.Count("keyword_text_defaults_applied")
@@ -787,7 +814,7 @@ func c14Check(x *core.Ctx, c *core.Case) {
 			x.Violate("supplied-variable-dropped", "variable absent from the result", "present")
 			return
 		}
-		if ok, why := conforms(schema, vd.Type, got, "$v"); !ok {
+		if ok, why := conforms(pristine, c14PristineType(vd.Type), got, "$v"); !ok {
 			kind := "value"
 			if c.Get("coerced") != "" {
 				kind = "coerced-single-value"
@@ -903,3 +930,6 @@ func numberChanged(in, out interface{}, path string) (string, string, string) {
 	}
 	return "", "", ""
 }
+
+// c14PristineType rebuilds a declared type from its text, so that the predicate does not share the *ast.Type nodes either.
+func c14PristineType(t *ast.Type) *ast.Type { return mustType(t.String()) }
